@@ -151,7 +151,8 @@ def install(rec):
     mon("divide_update_", core, "divide_update_", lambda X, c, out: X / c,
         exact=False, inplace_arg=2)
     mon("par_dot_csr_matvec", core, "par_dot_csr_matvec",
-        lambda A, x: (A.toarray() @ np.asarray(x).reshape(-1)).reshape(np.shape(x)),
+        lambda A, x: (A.toarray() @ np.asarray(x).reshape(-1)).reshape(
+            (A.shape[0],) + tuple(np.shape(x)[1:])),
         exact=False)
     mon("l_diag_dot_dense", core, "l_diag_dot_dense",
         lambda d, m: np.asarray(d).reshape(-1, 1) * np.asarray(m), exact=False)
@@ -267,10 +268,14 @@ def wl_kernels(rng, rec, tier):
         elif which == "par_dot_csr_matvec":
             nn = min(n, 1500)
             dens = min(1.0, 6.0 / nn)
-            A = sp.random(nn, nn, density=dens, format="csr",
+            mm = nn
+            if rng.random() < 0.4:
+                # rectangular operators (row slabs of a distributed matrix, isometries)
+                mm = nn + int(rng.integers(1, max(2, nn))) if rng.random() < 0.5 else int(rng.integers(1, nn + 1))
+            A = sp.random(mm, nn, density=dens, format="csr",
                           random_state=int(rng.integers(1 << 30)), dtype=float)
             if rng.random() < 0.5:
-                A = A + 1j * sp.random(nn, nn, density=dens, format="csr",
+                A = A + 1j * sp.random(mm, nn, density=dens, format="csr",
                                        random_state=int(rng.integers(1 << 30)))
                 A = A.tocsr()
             x = gen.rand_array(rng, (nn, 1) if rng.random() < 0.5 else (nn,), "complex128")
@@ -442,7 +447,61 @@ def wl_builder(rng, rec, tier):
                   mech=f"builder:parallel_equals_serial:{name}",
                   detail={"which": which, "n": n, "parallel": nt, "err": err},
                   sig=(which, n, len(edges), nt, name))
+    # a caller-supplied result buffer: "an array to store the result in", whatever it
+    # held before, serial and parallel alike
+    try:
+        b0 = gen.rand_array(rng, x.shape, "complex128")
+        b1 = b0.copy()
+        r0 = H.matvec(x, out=b0)
+        r1 = H.matvec(x, out=b1, parallel=nt)
+    except Exception as e:
+        rec.count("builder", "parallel_equals_serial", "rejected")
+        rec.note("builder_reject_out:" + type(e).__name__ + ":" + str(e)[:60])
+        return {"which": which, "n": n, "rejected_out": True}
+    for name, y in (("matvec_out_serial", r0), ("matvec_out_parallel", r1)):
+        ok, err, _ = close(y, want, sc, EPS, 1e4)
+        rec.check("builder", "parallel_equals_serial", ok,
+                  mech=f"builder:parallel_equals_serial:{name}",
+                  detail={"which": which, "n": n, "parallel": nt, "err": err},
+                  sig=(which, n, len(edges), nt, name))
     return {"which": which, "n": n, "parallel": nt, "D": int(d0.shape[0])}
+
+
+def wl_errors(rng, rec, tier):
+    """a call that fails in its single-threaded form must fail in its threaded
+    form too (same arguments, only the size / thread count decides the path):
+    never a silently returned, partly written buffer"""
+    import quimb as qu
+    from quimb import core
+    which = gen.choice(rng, ["subtract_update_", "complex_array", "randn"])
+    big = int(rng.integers(40000, 70000))
+
+    def outcome(f):
+        try:
+            f()
+            return "returned"
+        except Exception as e:  # noqa
+            return "raised:" + type(e).__name__
+    if which == "subtract_update_":
+        # real receiver, complex coefficient: not representable
+        c = 0.3 + 0.2j
+        small = outcome(lambda: core.subtract_update_(np.ones(10), c, np.ones(10)))
+        large = outcome(lambda: core.subtract_update_(np.ones(big), c, np.ones(big)))
+    elif which == "complex_array":
+        small = outcome(lambda: core.complex_array(np.ones((4, 4)), np.ones((4, 4))))
+        n2 = int(big ** 0.5) + 1
+        large = outcome(lambda: core.complex_array(np.ones((n2, n2)), np.ones((n2, n2))))
+    else:
+        small = outcome(lambda: qu.randn(64, dist="no_such_distribution", num_threads=1))
+        large = outcome(lambda: qu.randn(64, dist="no_such_distribution", num_threads=int(rng.integers(2, 9))))
+    FLOG.drain()
+    if small.startswith("raised"):
+        rec.check("threads", "error_like_serial", large.startswith("raised"),
+                  mech=f"threads:error_swallowed:{which}",
+                  detail={"serial": small, "threaded": large}, sig=("errors", which))
+    else:
+        rec.count("threads", "error_like_serial", "out_of_domain")
+    return {"which": which, "serial": small, "threaded": large}
 
 
 WORKLOADS = [
@@ -451,4 +510,5 @@ WORKLOADS = [
     ("par_reduce", 1, wl_par_reduce),
     ("randn", 1, wl_randn),
     ("builder", 1, wl_builder),
+    ("errors", 1, wl_errors),
 ]
